@@ -267,6 +267,93 @@ pub fn make_tables(seed: u64, k: usize) -> (Vec<u64>, Vec<String>) {
     (seeds, names)
 }
 
+// ---------------------------------------------------------------------------------------------
+// The hash as the searcher uses it. Everything above calls ZobristTable::hash on boards; the
+// search may keep keys of its own (updated move by move, anchored to the root) and the hash
+// function itself may remember things between calls. "Identical however the position was
+// reached" is judged here on the keys under which a real search files its results: after a traced
+// search every key in the table must be the hash of a position the search visited, and the hash of
+// a position must be the same before a search, after it, and after a search of another root.
+
+pub static SEARCH_KEYS_CHECKED: AtomicU64 = AtomicU64::new(0);
+pub static SEARCH_HASH_PROBES: AtomicU64 = AtomicU64::new(0);
+
+pub fn search_key_problems(b: &Board, depth: u8, cap: u64) -> Result<(u64, u64, Option<String>), String> {
+    use crate::search::Searcher;
+    use std::collections::{HashMap, HashSet};
+    crate::timer::verif::set_node_clock(Some(1));
+    guard(|| {
+        let mg = crate::eng::tl_mg();
+        let mut s = Searcher::new();
+        // probe positions: the root, its successors, and theirs (the first few)
+        let mut probes: Vec<Board> = vec![*b];
+        for m in mg.generate_moves(b) {
+            let c = b.clone_with_move(&m);
+            probes.push(c);
+            for m2 in mg.generate_moves(&c).iter().take(3) {
+                probes.push(c.clone_with_move(m2));
+            }
+        }
+        let before: Vec<u64> = probes.iter().map(|p| s.verif_hash(p)).collect();
+        crate::search::verif::set_repetition_trace(true);
+        s.find_best_move(b, depth, Some(std::time::Duration::from_millis(cap)));
+        let visited = crate::search::verif::take_repetition_trace();
+        crate::search::verif::set_repetition_trace(false);
+        let after: Vec<u64> = probes.iter().map(|p| s.verif_hash(p)).collect();
+        for (i, p) in probes.iter().enumerate() {
+            if before[i] != after[i] {
+                return (0, probes.len() as u64, Some(format!("the hash of {:?} was {:#018x} before the search of {:?} and is {:#018x} after it (same searcher, same keys): the hash depends on what was hashed or searched before", eng::fen_of(p), before[i], eng::fen_of(b), after[i])));
+            }
+        }
+        let mut hashes: HashMap<u64, eng::EKey> = HashMap::new();
+        for (vb, _, _) in &visited {
+            hashes.insert(s.verif_hash(vb), eng::key_of(vb));
+        }
+        let entries = s.verif_tt_entries();
+        for e in &entries {
+            if !hashes.contains_key(&e.hash_key) {
+                return (entries.len() as u64, probes.len() as u64, Some(format!("after the search of {:?} to depth {} the table holds an entry under the key {:#018x} (depth {}, move {:?}), which is the hash of none of the {} positions the search visited: a position reached inside the search was filed under another key than its hash", eng::fen_of(b), depth, e.hash_key, e.depth, e.best_move.map(|m| m.to_algebraic()), visited.len())));
+            }
+        }
+        // a second search, from the first successor: the hashes of the probes must still be the same
+        if probes.len() > 1 {
+            s.find_best_move(&probes[1], 2, Some(std::time::Duration::from_millis(cap)));
+            for (i, p) in probes.iter().enumerate() {
+                let h = s.verif_hash(p);
+                if h != before[i] {
+                    return (entries.len() as u64, probes.len() as u64, Some(format!("the hash of {:?} was {:#018x} at first and is {:#018x} after searches of {:?} and {:?}: the hash depends on the root of the last search", eng::fen_of(p), before[i], h, eng::fen_of(b), eng::fen_of(&probes[1]))));
+                }
+            }
+        }
+        (entries.len() as u64, probes.len() as u64, None)
+    })
+}
+
+pub fn replay_search_one(fen: &str, depth: u8, cap: u64) -> i32 {
+    let b = match eng::board_of_fen(fen) {
+        Ok(b) => b,
+        Err(e) => {
+            println!("REPLAY-ERROR bad fen {:?}: {}", fen, e);
+            return 2;
+        }
+    };
+    match search_key_problems(&b, depth, cap) {
+        Err(e) => {
+            println!("REPLAY-VIOLATION C11 search-keys fen={} panic :: {}", fen, e);
+            1
+        }
+        Ok((_, _, Some(_))) => {
+            // (the text names keys, which differ from run to run when the key set is not seeded)
+            println!("REPLAY-VIOLATION C11 search-keys fen={} :: a key used by the search is not the hash of the position", fen);
+            1
+        }
+        Ok(_) => {
+            println!("REPLAY-OK C11 search keys of {}", fen);
+            0
+        }
+    }
+}
+
 pub fn run(tier: &str, seed: u64, out: &str) {
     let rep = Report::new("C11", tier, seed);
     let thorough = tier == "thorough";
@@ -351,7 +438,48 @@ pub fn run(tier: &str, seed: u64, out: &str) {
             }
         }
     }
+    // ---- the hash as the searcher uses it
+    if !rep.saturated() {
+        let mut starts: Vec<Board> = Vec::new();
+        let mut seen_start = std::collections::HashSet::new();
+        for r in &roots {
+            if let Ok(b) = eng::board_of(&r.pos) {
+                if seen_start.insert(eng::key_of(&b)) {
+                    starts.push(b);
+                }
+                if thorough {
+                    for m in crate::eng::tl_mg().generate_moves(&b) {
+                        let c = b.clone_with_move(&m);
+                        if seen_start.insert(eng::key_of(&c)) {
+                            starts.push(c);
+                        }
+                    }
+                }
+            }
+        }
+        let depth: u8 = 3;
+        let cap: u64 = if thorough { 200_000 } else { 60_000 };
+        crate::par::par_map(&starts, |b| {
+            if rep.saturated() {
+                return;
+            }
+            let fen = eng::fen_of(b);
+            let args = vec!["c11-search-one".to_string(), "--fen".into(), fen.clone(), "--depth".into(), depth.to_string(), "--cap".into(), cap.to_string()];
+            match search_key_problems(b, depth, cap) {
+                Err(e) => rep.violation(format!("C11 search-keys fen={} panic", fen), format!("search of {:?}: {}", fen, e), args, J::Null),
+                Ok((n, pr, problem)) => {
+                    SEARCH_KEYS_CHECKED.fetch_add(n, Ordering::Relaxed);
+                    SEARCH_HASH_PROBES.fetch_add(pr, Ordering::Relaxed);
+                    if let Some(t) = problem {
+                        rep.violation(format!("C11 search-keys fen={}", fen), t, args, J::Null);
+                    }
+                }
+            }
+        });
+        eprintln!("[C11] the hash as the searcher uses it: {} searches, {} table keys checked, {} hash probes before/after ({:.1}s)", starts.len(), SEARCH_KEYS_CHECKED.load(Ordering::Relaxed), SEARCH_HASH_PROBES.load(Ordering::Relaxed), rep.elapsed());
+    }
     let cov = J::obj()
+        .set("hash_as_the_searcher_uses_it", J::obj().set("table_keys_checked", SEARCH_KEYS_CHECKED.load(Ordering::Relaxed)).set("hash_probes_before_and_after_searches", SEARCH_HASH_PROBES.load(Ordering::Relaxed)).set("rule", "a real search (depth 3, node-capped, fresh searcher) of every root with the node trace on: every key in the table afterwards must be the hash (the searcher's own, same key set) of a position the search visited; the hash of the root, of every successor and of some of theirs must be the same before the search, after it, and after a second search from another root"))
         .set("states", gs.states)
         .set("transitions", gs.transitions)
         .set("traces_validated_against_impl", gs.transitions)
